@@ -23,10 +23,13 @@ import (
 //
 // all three memoized, every token left-trimmed (spaces and newlines), root Sentence(Trim(expr)).
 type arithParsers struct {
-	Root   parsley.Parser
-	Expr   *parser.Func
-	Term   *parser.Func
-	Factor *parser.Func
+	Root parsley.Parser
+	// RootTrimmedEnd: the same language with the other usual way of writing the root: the tokens are left-trimmed, and
+	// the end of input is a left-trimmed End() after the expression - SeqOf(expr, LeftTrim(End(), WsSpacesNl)).Bind(Select(0))
+	RootTrimmedEnd parsley.Parser
+	Expr           *parser.Func
+	Term           *parser.Func
+	Factor         *parser.Func
 }
 
 func arithBinary() parsley.Interpreter {
@@ -102,6 +105,7 @@ func newArithOrder(baseFirst bool) *arithParsers {
 	))
 	a := &arithParsers{Expr: &expr, Term: &term, Factor: &factor}
 	a.Root = combinator.Sentence(text.Trim(&expr))
+	a.RootTrimmedEnd = combinator.SeqOf(&expr, text.LeftTrim(parser.End(), text.WsSpacesNl)).Bind(interpreter.Select(0))
 	return a
 }
 
